@@ -456,8 +456,8 @@ func init() {
 
 // errExempt: "function#callee" → reason, for ERR-1.
 var errExempt = map[string]string{
-	"bgzf.NewWriter#github.com/biogo/hts/bgzf.NewWriterLevel":        "the level passed is the constant gzip.DefaultCompression, the only error NewWriterLevel can return is for an invalid level",
-	"bam.NewWriterLevel#(*github.com/biogo/hts/bgzf.Writer).Flush":   "Flush's error is latched in the writer and returned by the Wait that follows (PATH-BAMNEW checks that sequence)",
-	"bam.NewReader#github.com/biogo/hts/sam.NewHeader":               "NewHeader(nil, nil) has nothing to validate and cannot fail",
+	"bgzf.NewWriter#github.com/biogo/hts/bgzf.NewWriterLevel":           "the level passed is the constant gzip.DefaultCompression, the only error NewWriterLevel can return is for an invalid level",
+	"bam.NewWriterLevel#(*github.com/biogo/hts/bgzf.Writer).Flush":      "Flush's error is latched in the writer and returned by the Wait that follows (PATH-BAMNEW checks that sequence)",
+	"bam.NewReader#github.com/biogo/hts/sam.NewHeader":                  "NewHeader(nil, nil) has nothing to validate and cannot fail",
 	"bam.(*Iterator).Close#(*github.com/biogo/hts/bam.Reader).SetChunk": "SetChunk(nil) only clears the chunk limit: no seek, no error",
 }
